@@ -13,6 +13,8 @@ From PJ.Model Require Import Base Terms Encoder Streams Decoder Spec Api.
 From PJ.Proofs Require Import DecoderProofs DecoderSound AgreeProofs WireRT SpecWf BytesE2E RdflibBytes.
 From PJ.Tie Require Import PyPrims StrN OptionsTie EncodeTie EncodeStmtTie FlowsTie DecodeTie DecoderBase DecoderTie StmtLayout GenericRoundTrip RdflibParseTie.
 From PJ.Gen Require Import LookupDecGen OptionsGen DecodeGen RdflibParseGen.
+From PJ.Gen Require GenericParseGen.
+From PJ.Tie Require GenericParseTie GenericTerms.
 Local Open Scope Z_scope.
 
 (* ------------------------------------------------------------------ the reader over a list of frames *)
@@ -232,7 +234,29 @@ Proof.
       rewrite (flatten_loop_is loop ltac:(intros [|x xs] [fr ys]; reflexivity)). cbn [app]. rewrite Hys. reflexivity.
 Qed.
 
+(* C15 on translated source, both integrations over the same message objects: for any RDF 1.1 stream the referee accepts, the translated
+   flat parser of the generic integration returns the generic objects of the events it denotes and the translated flat parser of the
+   rdflib integration the rdflib objects of their view -- term for term the same strings (IRIs, labels, lexical forms, tags, datatypes,
+   graph names) wherever the view is the identity, i.e. on terms rdflib can hold *)
+Theorem C15_source_flat_parsers_correspond :
+  forall (fs : list frame) (evs : list event) (dl : bool),
+    run_frames fs = Valid evs -> forallb (fun f => forallb row_rdf11 (f_rows f)) fs = true ->
+    exists po, (exists sk first more, skip_empty fs = (sk, first :: more) /\ Decoder.options_from_frame first dl = Ok po) /\
+      (GenericParseTie.types_named (ParserOptions_stream_types (popts_obj po)) -> types_named (ParserOptions_stream_types (popts_obj po)) ->
+       let fms := map (frame_msg (rmsg gput)) fs in
+       GenericParseGen.parse_jelly_flat SN fms (popts_obj po) false = (Val tt, fms, map (fun e => Some (GenericTerms.obj_of_event e)) evs) /\
+       parse_jelly_flat SN fms (popts_obj po) false = (Val tt, fms, map (fun e => Some (pobj_of_event (eview e))) evs)).
+Proof.
+  intros fs evs dl Hv H11.
+  destruct (C04_source_generic_flat_parser fs evs dl Hv) as (po & (sk & first & more & H1 & H2) & Hg).
+  destruct (C04_source_rdflib_flat_parser fs evs dl Hv H11) as (po' & (sk' & first' & more' & H1' & H2') & Hr).
+  rewrite H1 in H1'. injection H1' as <- <- <-. rewrite H2 in H2'. injection H2' as <-.
+  exists po. split; [exists sk, first, more; split; assumption|].
+  intros Htg Htr fms. split; [exact (Hg Htg) | exact (Hr Htr)].
+Qed.
+
 Print Assumptions rdflib_reads_frames.
 Print Assumptions C04_source_rdflib_reads_valid_streams.
 Print Assumptions C04_source_rdflib_exact.
 Print Assumptions C04_source_rdflib_flat_parser.
+Print Assumptions C15_source_flat_parsers_correspond.
